@@ -25,7 +25,7 @@ type vfReq struct {
 	Name   string `json:",omitempty"` // EXTUNKNOWN name
 }
 
-var vfProgPaths = []string{"file", "dir", "dir/a", "dir/b", "empty", "lfile", "ldir", "ldangling", "new1", "new2", "dir/new", "missing/x", "dir/sub", "dir/sub/x"}
+var vfProgPaths = []string{"file", "dir", "dir/a", "dir/b", "empty", "lfile", "ldir", "ldangling", "new1", "new2", "dir/new", "missing/x", "dir/sub", "dir/sub/x", "new3"}
 
 var vfReqKinds = []string{"OPEN", "OPEN", "OPENDIR", "CLOSE", "CLOSE", "READ", "READ", "READ", "WRITE", "WRITE", "FSTAT", "FSETSTAT", "READDIR", "LSTAT", "STAT",
 	"SETSTAT", "REMOVE", "MKDIR", "RMDIR", "REALPATH", "RENAME", "READLINK", "SYMLINK", "STATVFS", "POSIXRENAME", "HARDLINK", "EXTUNKNOWN"}
